@@ -48,7 +48,7 @@ def case_of(scn, it):
     cond = float(sv[0] / sv[-1]) if sv[-1] > 0 else 1e16
     tole = max(-27, min(-16, int(math.ceil(math.log2(64 * 2.2e-16 * cond * cond)))))
     return '(mk_c01 %s %s %s %s %d %s %s %s %s %s %s %s %s %s)' % (
-        link, dist, tau, dylit(1.0), m, mat(B), obs, vec(it['W']), vec(it['pd']), mat(it['E']), mat(P), vec(it['coef_in']), vec(it['coef_new']),
+        link, dist, tau, dylit(float(scn.get('levels', 1))), m, mat(B), obs, vec(it['W']), vec(it['pd']), mat(it['E']), mat(P), vec(it['coef_in']), vec(it['coef_new']),
         common.zlit(tole))
 
 
@@ -105,7 +105,7 @@ def run(res):
     common.standard_prove(res, ['Props/C01.v', 'Props/C01Alg.v'], gen_targets=['links', 'dists', 'stats', 'solver'], extra=['Model/C01Check.vo'])
     warnings.simplefilter('ignore')
     cases, meta = [], []
-    classes = gen_models.CLASSES
+    classes = gen_models.CLASSES + ['BinomialGAM']
     regimes = ['n>m', 'n>m', 'n=m', 'n<m']
     for i in range(nfits):
         cls = classes[i % len(classes)]
